@@ -242,7 +242,12 @@ func (g *gg) mapping(depth int, anchored bool) *yaml.Node {
 				}
 			}
 		case 1:
-			r := rapid.SampledFrom([]struct{ text, canon string }{{"1", "1"}, {"0x1", "1"}, {"true", "true"}, {"2", "2"}}).Draw(g.t, "rawkey")
+			r := rapid.SampledFrom([]struct{ text, canon string }{{"1", "1"}, {"0x1", "1"}, {"true", "true"}, {"2", "2"}, {"0b1", "1"}, {"+2", "2"}, {"True", "true"},
+				// integers at and beyond the int64 boundary in several spellings (they decode to uint64)
+				{"9223372036854775807", "9223372036854775807"}, {"0x7FFFFFFFFFFFFFFF", "9223372036854775807"},
+				{"9223372036854775808", "9223372036854775808"}, {"0x8000000000000000", "9223372036854775808"},
+				{"18446744073709551615", "18446744073709551615"}, {"0xFFFFFFFFFFFFFFFF", "18446744073709551615"}, {"18_446_744_073_709_551_615", "18446744073709551615"},
+				{"-9223372036854775808", "-9223372036854775808"}, {"-0x8000000000000000", "-9223372036854775808"}}).Draw(g.t, "rawkey")
 			kn, ck = doc.Plain(r.text), r.canon
 			g.stats.rawKey++
 		}
